@@ -25,3 +25,20 @@ func VerifC20StrictPipeline() {
 	}
 	v.Assert(err != nil && strings.Contains(err.Error(), "field "+g.injectedKey+" not found"), "C20: an undeclared key is not rejected by the loader")
 }
+
+// VerifC03Interpolate (C03): pipeline parameters are a Go map; `%name%` placeholders are replaced by
+// ranging over it. With a parameter whose value itself holds a placeholder (`dir: '%__config_dir%/schemas'`,
+// the usual way to build paths) the result must not depend on the order the map is ranged in.
+func VerifC03Interpolate() {
+	schemas := v.Str("schemasvalue", "%root%/schemas", "schemas")
+	out := v.Str("outvalue", "%schemas%/../out", "%root%/out", "out")
+	mk := func() *Pipeline {
+		return &Pipeline{Parameters: map[string]string{"root": "/cfg", "schemas": schemas, "out": out}}
+	}
+	input := v.Str("input", "%schemas%/a.cue", "%out%", "%root%/%out%", "plain", "%unknown%")
+	v.SymOrder(true)
+	r1 := mk().interpolate(input)
+	r2 := mk().interpolate(input)
+	v.SymOrder(false)
+	v.Assert(r1 == r2, "C03: the value a pipeline parameter placeholder expands to depends on map iteration order")
+}
